@@ -59,6 +59,27 @@ def count_rounding_nodes(ode, name):
     return n
 
 
+def closure_srepr(ode, name):
+    """sha of the symbolic stage (srepr) of `name` and of everything it depends on"""
+    import sympy
+
+    seen, todo, parts = set(), [name], []
+    while todo:
+        k = todo.pop()
+        if k in seen:
+            continue
+        seen.add(k)
+        try:
+            ex = ode[k].expr
+        except Exception:
+            continue
+        parts.append(k + "=" + sympy.srepr(ex))
+        for s_ in ex.free_symbols:
+            if s_.name in ode._lookup and hasattr(ode._lookup[s_.name], "expr"):
+                todo.append(s_.name)
+    return sha("|".join(sorted(parts)))
+
+
 def main():
     job = json.load(sys.stdin)
     import os
@@ -94,7 +115,7 @@ def main():
         print("RESULT " + json.dumps({"matrices": res}))
         return
     if job.get("count_rounding_nodes_of"):
-        print("RESULT " + json.dumps({"count": count_rounding_nodes(ode, job["count_rounding_nodes_of"])}))
+        print("RESULT " + json.dumps({"count": count_rounding_nodes(ode, job["count_rounding_nodes_of"]), "srepr": closure_srepr(ode, job["count_rounding_nodes_of"])}))
         return
     out = {"sha": {}, "code": {}, "errors": {}}
     out["sorted_states"] = [s.name for s in ode.sorted_states()]
